@@ -401,6 +401,17 @@ def body(ctx, replay=None):
         cases = gen_table_cases(ctx)
         nt, nc = (50, 10) if ctx.tier == "quick" else (400, 60)
         cases += [gen_tree_case(ctx.rng, i) for i in range(nt)]
+        # fixed trees: packages sharing one include pattern but differing in their exclude pattern (a decision made for one package must not be reused for another)
+        rdirs = {"t": "go", "t/svc0": "go", "t/svc0/api0": "go", "t/lib0": "go", "t/lib0/core0": "go", "t/pkg0": "go", "t/pkg0/util0": "go", "t/zz0": "go"}
+        for j, order in enumerate((["t/svc0", "t/lib0", "t/pkg0", "t/zz0"], ["t/zz0", "t/pkg0", "t/lib0", "t/svc0"])):
+            exc = {"t/svc0": "Two$", "t/lib0": None, "t/pkg0": "One$", "t/zz0": "^Svc"}
+            pk = {}
+            for n, d in enumerate(order):
+                c = {"recursive": d != "t/zz0", "include-interface-regex": "^Svc", "structname": "R%d_{{.InterfaceName}}" % n}
+                if exc[d]:
+                    c["exclude-interface-regex"] = exc[d]
+                pk[d] = c
+            cases.append({"kind": "tree", "i": 9500 + j, "dirs": rdirs, "pkcfg": pk, "excl_root": None, "root_recursive": False})
         # fixed trees: every entry of an exclusion list is its own expression (flags, anchors and alternations do not reach the neighbours)
         fdirs = {"t": "go", "t/svc0": "go", "t/svc0/internal0": "go", "t/svc0/core0": "go", "t/svc0/api0": "go", "t/svc0/api0/gen0": "go", "t/lib0": "go", "t/lib0/util0": "go", "t/lib0/mocks0": "go"}
         for j, lst in enumerate([["(?i)/INTERNAL", "/CORE"], ["(?i)zzz", "/API", "UTIL"], ["/CORE", "(?i)/INTERNAL"], ["^internal0", "core0$"], ["api0$", "^example.com/m/t/lib0/u"], ["(?i)/MOCKS", "/Core0", "/gen0$"]]):
